@@ -131,10 +131,12 @@ fn lookup_ident<'a>(
     ident: &Ident,
 ) -> Option<spl_frontend::table::Entry<'a>> {
     use spl_frontend::table::{Entry, LookupTable};
+    // the name token is the last token of the name's range (which may start with comments)
     let is_own_name = doc
         .tokens
         .get(p.to_range())
-        .map_or(false, |tokens| p.name.to_text_range(tokens) == ident.range);
+        .and_then(|tokens| tokens.get(p.name.to_range().end.checked_sub(1)?))
+        .map_or(false, |token| token.range == ident.range);
     if is_own_name {
         doc.table.lookup(&ident.value).map(Entry::from)
     } else {
